@@ -22,7 +22,7 @@ from ..methods import httpMethods
 from .protocols import httpProtocolTypes
 from ..exception import HttpProtocolException
 from ..protocols import httpProtocols
-from ..responses import NOT_FOUND_RESPONSE_PKT
+from ..responses import NOT_FOUND_RESPONSE_PKT, BAD_REQUEST_RESPONSE_PKT
 from ..websocket import WebsocketFrame, websocketOpcodes
 from ...core.event import eventNames
 from ...common.flag import flags
@@ -229,8 +229,24 @@ class HttpWebServerPlugin(HttpProtocolHandlerPlugin):
                 self.pipeline_request = HttpParser(
                     httpParserTypes.REQUEST_PARSER,
                 )
-            self.pipeline_request.parse(raw)
+            try:
+                self.pipeline_request.parse(raw)
+            except HttpProtocolException as e:  # noqa: WPS329
+                # Same treatment as the 1st request gets,
+                # see HttpProtocolHandler._parse_first_request
+                self.client.queue(BAD_REQUEST_RESPONSE_PKT)
+                raise e
+            except Exception as e:
+                self.client.queue(BAD_REQUEST_RESPONSE_PKT)
+                raise HttpProtocolException(
+                    'Error when parsing request: %r' % raw.tobytes(),
+                ) from e
             if self.pipeline_request.is_complete:
+                if self.pipeline_request.http_handler_protocol == httpProtocols.UNKNOWN:
+                    self.client.queue(BAD_REQUEST_RESPONSE_PKT)
+                    raise HttpProtocolException(
+                        'Unknown protocol in request: %r' % raw.tobytes(),
+                    )
                 self.route.handle_request(self.pipeline_request)
                 if not self.pipeline_request.is_http_1_1_keep_alive:
                     raise HttpProtocolException(
